@@ -195,6 +195,7 @@ package avro
 //@   exactemits
 
 //@ func (Float32DoubleCodec).Read
+//@   props C06
 //@   implements Codec.Read
 //@   let i0 := r.i, n := len(r.buf)
 //@   requires wfRB(r) && p != nil && rawalloc(p, 4)
@@ -251,6 +252,7 @@ package avro
 // ---------------------------------------------------------------- buffer.go: string bank (functional part; C10 adds the bank invariant)
 
 //@ func (*ResourceBank).ToString
+//@   props C06
 //@   requires rb != nil
 //@   ensures [C03,C10,C17] len(res) == len(in) && forall k int :: 0 <= k && k < len(in) ==> res[k] == old(in[k])
 //@   ensures [C10] base(res) == base(rb.sData) && (base(rb.sData) == old(base(rb.sData)) || newobj(rb.sData))
@@ -311,7 +313,8 @@ package avro
 //@   ensures [C06,C04,C03] i0 <= r.i && r.i <= n
 //@   ensures [C04,C03] err == nil ==> uvOK(r.buf, i0, e) && l >= 0 && r.i == e + int(l)
 //@   ensures [C03] err == nil ==> len(memstr(ptr)) == int(l) && (forall k int :: 0 <= k && k < int(l) ==> memstr(ptr)[k] == r.buf[e+k])
-//@   ensures [C10] err == nil ==> base(memstr(ptr)) == base(r.rb.sData) && (base(r.rb.sData) == old(base(r.rb.sData)) || newobj(r.rb.sData))
+//@   ensures [C10] err == nil ==> base(memstr(ptr)) == base(r.rb.sData)
+//@   ensures [C10,C06,C04,C05,C03] base(r.rb.sData) == old(base(r.rb.sData)) || newobj(r.rb.sData)
 //@   modifies r.i, M[ptr, 16], r.rb.sData, BH[r.rb.sData]
 
 //@ func (StringCodec).Skip
@@ -408,7 +411,7 @@ package avro
 //@ func (*unionOneAndNullCodec).Read
 //@   implements Codec.Read
 //@   let i0 := r.i, b0 := r.buf, sel := r.buf[r.i]
-//@   requires wfRBS(r) && wfc(asiface(u)) && typed(asiface(u)) && (dsz(u.codec) > 0 ==> p != nil) && rawalloc(p, dsz(u.codec))
+//@   requires wfRBS(r) && wfc(asiface(u)) && typed(asiface(u)) && (dsz(u.codec) > 0 ==> p != nil) && rawalloc(p, dsz(u.codec)) && zeroed(p, dsz(u.codec))
 //@   ensures [C03,C06] i0 < len(b0) && sel >= 4 ==> err != nil
 //@   ensures [C03] err == nil && sel == 2 * u.nonNull ==> tlen() == 2 && tkind(0) == evRB && tkind(1) == evCR && ta(1) == tag(u.codec) && tb(1) == uint64(data(u.codec)) && tc(1) == uint64(p)
 //@   ensures [C03] err == nil && sel == 2 * (1 - u.nonNull) ==> tlen() == 1 && tkind(0) == evRB
@@ -478,6 +481,7 @@ package avro
 //@      cend(b, i) = cend(this.Codec, b, i) ; wfval(p) = rdable(p, 8) && (mem64(p) == 0 || wfval(this.Codec, ptr(mem64(p))))
 
 //@ func (*PointerCodec).Read
+//@   props C06
 //@   implements Codec.Read
 //@   let i0 := r.i, b0 := r.buf
 //@   requires wfRBS(r) && wfc(asiface(c)) && typed(asiface(c)) && p != nil && rawalloc(p, 8) && zeroed(p, 8)
@@ -489,6 +493,7 @@ package avro
 //@ global pointerType != nil && data(pointerType) != nil && rtypesz(data(pointerType)) == 8
 
 //@ func (*PointerCodec).New
+//@   props C06
 //@   implements Codec.New
 //@   let i0 := r.i, b0 := r.buf
 //@   requires wfRBS(r)
@@ -526,6 +531,7 @@ package avro
 //@      wfval(p) = p != nil && (forall k int :: 0 <= k && k < len(this.fields) ==> this.fields[k].offset != MaxUint64 && wfval(this.fields[k].codec, uintptr(p) + this.fields[k].offset))
 
 //@ func (*recordCodec).Skip
+//@   props C06
 //@   implements Codec.Skip
 //@   let i0 := r.i, b0 := r.buf
 //@   requires wfRB(r) && wfc(asiface(rc))
@@ -537,6 +543,7 @@ package avro
 //@   loop 1 decreases len(rc.fields) - rangeindex
 
 //@ func (*recordCodec).Read
+//@   props C06
 //@   implements Codec.Read
 //@   let i0 := r.i, b0 := r.buf, sd0 := r.rb.sData, rb0 := r.rb
 //@   requires wfRBS(r) && wfc(asiface(rc)) && (recsz(rc) > 0 ==> p != nil) && rawalloc(p, recsz(rc)) && zeroed(p, recsz(rc))
@@ -706,12 +713,14 @@ package avro
 //@   modifies heap cell:github.com/philpearl/avro.Codec.tag, heap cell:github.com/philpearl/avro.Codec.data
 
 //@ func (*ReadBuf).Reset
+//@   props C06
 //@   requires d != nil
 //@   ensures [C07,C10] d.i == 0 && d.buf == data && d.rb != nil
 //@   ensures [assume] base(d.rb.sData) != base(data) || len(data) == 0
 //@   modifies d.i, d.buf, d.rb
 
 //@ func (*ReadBuf).ExtractResourceBank
+//@   props C06
 //@   requires d != nil
 //@   ensures [C07,C10] res == old(d.rb) && d.rb != nil && d.i == old(d.i) && d.buf == old(d.buf)
 //     the pool never hands out a bank that is still referenced (premise of the bank API), and bank buffers are private
@@ -720,7 +729,7 @@ package avro
 
 //@ func readBytes
 //@   let p0 := inpos()
-//@   requires wfIn()
+//@   requires wfIn() && r != nil
 //@   ensures [C07,C08,C06] wfIn() && p0 <= inpos()
 //@   ensures [C08] err == io.EOF ==> inpos() == inlen()
 //@   ensures [C08] err == nil || err == io.EOF || err == io.ErrUnexpectedEOF || !wraps(err, io.EOF)
@@ -728,7 +737,7 @@ package avro
 
 //@ func readFileHeader
 //@   let p0 := inpos()
-//@   requires wfIn()
+//@   requires wfIn() && r != nil
 //@   ensures [C07,C08,C06] wfIn() && p0 <= inpos()
 //@   ensures [C07] p0 + 4 <= inlen() && !(instream()[p0] == 79 && instream()[p0+1] == 98 && instream()[p0+2] == 106 && instream()[p0+3] == 1) ==> err != nil
 //@   ensures [C07,C08] err == nil ==> p0 + 20 <= inpos() && forall j int :: 0 <= j && j < 16 ==> fh.Sync[j] == instream()[inpos() - 16 + j]
@@ -740,6 +749,7 @@ package avro
 //@   loop 2 decreases count
 
 //@ func (FileHeader).schema
+//@   props C06
 //@   ensures [C07] !maphas(fh.Meta, "avro.schema") ==> err != nil
 //@   modifies type Schema, type SchemaObject, type SchemaRecordField, BH
 
@@ -751,6 +761,7 @@ package avro
 //@ spec lastNotFailedCB() bool = tlen() == 0 || tkind(tlen()-1) != evCB || tb(tlen()-1) == 0
 
 //@ func ReadFile
+//@   props C06
 //@   requires wfIn() && r != nil && cb != nil && out != nil && (rkind(typedesc(tag(out))) == 22 ==> data(out) != nil && rawalloc(data(out), rtypesz(outdesc(out))))
 //     success only at a block boundary: the last stream access found end-of-input before the first byte of a block count,
 //     and what precedes it (if anything) is a complete, matching sync marker
@@ -777,6 +788,7 @@ package avro
 // ---------------------------------------------------------------- decompressors (C07: damage is reported, never silently accepted)
 
 //@ func (nullCompression).decompress
+//@   props C06
 //@   implements compressionCodec.decompress
 //@   ensures [C07] err == nil && res == compressed
 //@   pure
@@ -845,6 +857,7 @@ package avro
 //@   uses umul_mono(len, in.Len + len, sz)
 
 //@ func (*arrayCodec).Read
+//@   props C06
 //@   implements Codec.Read
 //@   let i0 := r.i, b0 := r.buf, sd0 := r.rb.sData, rb0 := r.rb, sz := isz(rc)
 //@   requires wfRBS(r) && wfc(asiface(rc)) && typed(asiface(rc)) && p != nil && rawalloc(p, 24) && zeroed(p, 24)
@@ -897,6 +910,7 @@ package avro
 //@   after Read#1 apply sub_range_disjoint(uint64(uintptr(p)), 24, hD(p), uint64(hC(p) * sz), uint64((hL(p) + 1) * sz), uint64((hC(p) - (hL(p) + 1)) * sz)) when sz > 0
 
 //@ func (*arrayCodec).Skip
+//@   props C06
 //@   implements Codec.Skip
 //@   let i0 := r.i, b0 := r.buf
 //@   requires wfRB(r) && wfc(asiface(rc))
@@ -916,6 +930,7 @@ package avro
 //@ global sliceType != nil && data(sliceType) != nil && rtypesz(data(sliceType)) == 24
 
 //@ func (*arrayCodec).New
+//@   props C06
 //@   implements Codec.New
 //@   let i0 := r.i, b0 := r.buf
 //@   requires wfRBS(r) && wfc(asiface(rc))
@@ -983,11 +998,13 @@ package avro
 //@   before typedmemclr#1 apply sub_range_in(uint64(uintptr(rt.array)), uint64(rt.cap * rt.size), uint64(i * rt.size), uint64(rt.size)) when rt.size > 0
 
 //@ func (*ReadBuf).Alloc
+//@   props C06
 //@   requires d != nil && d.rb != nil && rtyp != nil
 //@   ensures [C05,C20,C11,C10] res != nil && rawalloc(res, rtypesz(data(rtyp))) && rawfresh(res, rtypesz(data(rtyp))) && zeroed(res, rtypesz(data(rtyp)))
 //@   modifies d.rb.types, type resourceType, M[0, 0]
 
 //@ func (*ResourceBank).Close
+//@   props C06
 //@   let n0 := len(rb.types)
 //@   requires wfBank(rb)
 //@   ensures [C10] wfBank(rb) && len(rb.types) == n0 && len(rb.sData) == 0
@@ -1035,6 +1052,7 @@ package avro
 //@      cend(b, i) = mblk(this, b, i) ; wfval(p) = rdable(p, 8)
 
 //@ func (*MapCodec).Skip
+//@   props C06
 //@   implements Codec.Skip
 //@   let i0 := r.i, b0 := r.buf
 //@   requires wfRB(r) && wfc(asiface(m))
@@ -1051,6 +1069,7 @@ package avro
 //@   loop 2 decreases count
 
 //@ func (*MapCodec).New
+//@   props C06
 //@   implements Codec.New
 //@   let i0 := r.i, b0 := r.buf
 //@   requires wfRBS(r)
@@ -1183,3 +1202,46 @@ package avro
 //@   ensures [C05,C13,C20,C06] built(res, err, typ)
 //@   modifies heap cell:github.com/philpearl/avro.Codec.tag, heap cell:github.com/philpearl/avro.Codec.data
 //@   trusted
+
+//@ func (*MapCodec).Read
+//@   implements Codec.Read
+//@   props C06
+//@   let i0 := r.i, b0 := r.buf, sd0 := r.rb.sData, rb0 := r.rb
+//@   requires wfRBS(r) && wfc(asiface(m)) && typed(asiface(m)) && p != nil && rawalloc(p, 8) && zeroed(p, 8)
+//@   ensures [C04] err == nil ==> r.i == mblk(m, b0, i0)
+//@   modifies r.i, M[p, 8], r.rb.sData, r.rb.types, type resourceType, BH[r.rb.sData]
+//     outer loop: one iteration per block; the map object itself is runtime memory (opaque), only the slot at p is ours
+//@   loop 1 invariant wfRBS(r) && r.buf == b0 && sameobj(b0) && i0 <= r.i && r.rb == rb0 && bhframe(sd0) && (base(r.rb.sData) == base(sd0) || newobj(r.rb.sData))
+//@   loop 1 invariant rawalloc(p, 8) && memframe(p, 8) && mp != nil
+//@   loop 1 invariant [C04] mblk(m, b0, i0) == mblk(m, b0, r.i)
+//@   loop 1 uses mblk_unfold(m, b0, r.i)
+//@   loop 1 decreases len(b0) - r.i
+//@   loop 2 invariant wfRBS(r) && r.buf == b0 && sameobj(b0) && i0 <= r.i && r.rb == rb0 && bhframe(sd0) && (base(r.rb.sData) == base(sd0) || newobj(r.rb.sData))
+//@   loop 2 invariant rawalloc(p, 8) && memframe(p, 8) && mp != nil && len(b0) - r.i < loopdec(1)
+//@   loop 2 invariant [C04] mblk(m, b0, i0) == mblk(m, b0, mitems(m, b0, r.i, count))
+//@   loop 2 uses mitems_unfold(m, b0, r.i, count)
+//@   loop 2 decreases count
+
+// ---------------------------------------------------------------- union.go: general unions (decode/skip only; Write is unimplemented)
+//@ ghost udsz(c ptr) int
+//@ type *unionCodec : dsz = udsz(this) ; wfc = this != nil && (forall k int :: 0 <= k && k < len(this.codecs) ==> this.codecs[k] != nil && wfc(this.codecs[k])) ; \
+//@      typed = 0 <= udsz(this) && (forall k int :: 0 <= k && k < len(this.codecs) ==> typed(this.codecs[k]) && 0 <= dsz(this.codecs[k]) && dsz(this.codecs[k]) <= udsz(this)) ; \
+//@      cend(b, i) = (0 <= vval(b, i) && vval(b, i) < int64(len(this.codecs))) ? cend(this.codecs[int(vval(b, i))], b, vend(b, i)) : vend(b, i) ; wfval(p) = true
+
+//@ func (*unionCodec).Read
+//@   implements Codec.Read
+//@   props C06
+//@   let i0 := r.i, b0 := r.buf
+//@   requires wfRBS(r) && wfc(asiface(u)) && typed(asiface(u)) && (udsz(u) > 0 ==> p != nil) && rawalloc(p, udsz(u)) && zeroed(p, udsz(u))
+//@   ensures [C03,C06] (vval(b0, i0) < 0 || vval(b0, i0) >= int64(len(u.codecs))) ==> err != nil
+//@   ensures [C04] err == nil ==> r.i == cend(asiface(u), b0, i0)
+//@   modifies r.i, M[p, udsz(u)], r.rb.sData, r.rb.types, type resourceType, BH[r.rb.sData]
+
+//@ func (*unionCodec).Skip
+//@   implements Codec.Skip
+//@   props C06
+//@   let i0 := r.i, b0 := r.buf
+//@   requires wfRB(r) && wfc(asiface(u))
+//@   ensures [C04,C06] (vval(b0, i0) < 0 || vval(b0, i0) >= int64(len(u.codecs))) ==> err != nil
+//@   ensures [C04] err == nil ==> r.i == cend(asiface(u), b0, i0)
+//@   modifies r.i
